@@ -601,40 +601,55 @@ func VerifC01_Boundary() {
 	c01CheckEncoding(it, ref, n <= 256 || vsymTier() == 1)
 }
 
-// genTree builds a list tree of the given depth budget; shapes are chosen symbolically.
-func genTree(depth, maxKids int) (Item, *refNode) {
+// genTree builds a list tree of the given depth budget; shapes are chosen symbolically. Leaves are
+// drawn from kinds (indices into genLeaf) with 0..maxN symbolic elements.
+func genTree(depth, maxKids int, kinds []int, maxN int) (Item, *refNode) {
 	if depth == 0 || vsymChoose(2) == 0 {
-		kind := vsymChoose(15)
-		n := vsymChoose(3)
-		return genLeaf(kind, n, vsymChoose(2))
+		kind := kinds[vsymChoose(len(kinds))]
+		n := vsymChoose(maxN + 1)
+		return genLeaf(kind, n, 1)
 	}
 	k := vsymChoose(maxKids + 1)
 	ref := &refNode{fc: 0}
 	kids := make([]Item, 0, k)
 	for i := 0; i < k; i++ {
-		c, r := genTree(depth-1, maxKids)
+		c, r := genTree(depth-1, maxKids, kinds, 1)
 		kids = append(kids, c)
 		ref.kids = append(ref.kids, r)
 	}
 	return NewListItem(kids...), ref
 }
 
-// VerifC01_Tree: list trees up to depth 2 x 2 children (thorough: depth 3 x 2) over symbolic
-// leaves.
+// VerifC01_Tree: list trees of depth <= 2 with <= 2 children per list over symbolic leaves
+// (quick: leaf kinds I2/F4/ASCII; thorough: I1/I8/U2/F4/F8/BOOLEAN/B/A/localized).
 func VerifC01_Tree() {
 	vsymExpect("roundtrip")
-	depth := 2
+	kinds := []int{1, 8, 12}
 	if vsymTier() == 1 {
-		depth = 3
+		kinds = []int{0, 3, 5, 8, 9, 10, 11, 12, 14}
 	}
 	k := vsymChoose(3)
 	ref := &refNode{fc: 0}
 	kids := make([]Item, 0, k)
 	for i := 0; i < k; i++ {
-		c, r := genTree(depth-1, 2)
+		c, r := genTree(1, 2, kinds, 2)
 		kids = append(kids, c)
 		ref.kids = append(ref.kids, r)
 	}
+	it := L(kids...)
+	c01CheckEncoding(it, ref, true)
+}
+
+// VerifC01_Tree3: L(T, U1) where T ranges over depth-3 trees (list of lists of lists) with <= 2
+// children per list and U2/ASCII leaves of 0..1 elements.
+func VerifC01_Tree3() {
+	vsymExpect("roundtrip")
+	kinds := []int{5, 12}
+	ref := &refNode{fc: 0}
+	c, r := genTree(2, 2, kinds, 1)
+	a := vsymU8()
+	kids := []Item{c, U1(a)}
+	ref.kids = append(ref.kids, r, &refNode{fc: 0o51, w: 1, vals: []uint64{uint64(a)}})
 	it := L(kids...)
 	c01CheckEncoding(it, ref, true)
 }
